@@ -6,6 +6,7 @@
 -/
 import GojaModel.C04.Model
 import GojaModel.C04.LemmasDefine2
+import GojaModel.C04.HistKeys
 namespace GojaModel.C04
 set_option linter.unusedSimpArgs false
 set_option linter.unusedVariables false
@@ -159,5 +160,385 @@ theorem argsDelete_spec {V} (undef : V) (env : Nat → V) (slot : ASlot V) :
     cases s with
     | plain x => rfl
     | prop p => cases h : p.accessor <;> simp [argsDelete, argsDelete.checkDeleteStored, ASlot.spec, ASlot.view, absProp, h, SProp.configurable]
+
+/-! ### histories: a mapped arguments object is the ordinary object it stands for, after ANY sequence of own-property
+operations (the parameter variables being written only through it) -/
+
+structure AObj (V : Type) where
+  slots : List (Key × ASlot V)
+  env : Nat → V
+  ext : Bool
+
+inductive AOp (V : Type) where
+  | define (k : Key) (d : Desc V)
+  | setOwn (k : Key) (v : V)          -- [[Set]] reaching an existing own slot (the chain walk is `SetPath`)
+  | delete (k : Key)
+
+def AObj.spec {V} (undef : V) (a : AObj V) : List (Key × SProp V) :=
+  a.slots.map (fun ks => (ks.1, ks.2.spec undef a.env))
+
+def AObj.step {V} [DecidableEq V] (undef : V) (a : AObj V) : AOp V → AObj V
+  | .define k d =>
+    (match lookup a.slots k with
+     | some slot =>
+       (match argsDefine undef slot a.env d a.ext with
+        | some r => { a with slots := put a.slots k r.1, env := r.2 }
+        | none => a)
+     | none =>
+       (match defineOwn undef none d a.ext with                 -- baseObject.defineOwnPropertyStr: new property
+        | some s => { a with slots := put a.slots k (.ord s) }
+        | none => a))
+  | .setOwn k v =>
+    (match lookup a.slots k with
+     | some slot =>
+       (match argsSetOwn slot a.env v with
+        | some r => { a with slots := put a.slots k r.1, env := r.2 }
+        | none => a)
+     | none => a)
+  | .delete k =>
+    (match lookup a.slots k with
+     | some slot => if argsDelete slot then { a with slots := eraseKey a.slots k } else a
+     | none => a)
+
+/-- the ordinary object's operations on its spec-level property list -/
+def specStep {V} [DecidableEq V] (undef : V) (ext : Bool) (l : List (Key × SProp V)) : AOp V → List (Key × SProp V)
+  | .define k d => (match validateAndApply undef (lookup l k) d ext with
+                    | some p => put l k p
+                    | none => l)
+  | .setOwn k v => (match lookup l k with
+                    | some (.data _ true e c) => put l k (.data v true e c)
+                    | _ => l)
+  | .delete k => (match lookup l k with
+                  | some p => if p.configurable then eraseKey l k else l
+                  | none => l)
+
+def ASlot.refOf {V} : ASlot V → Option Nat
+  | .mapped _ _ _ r => some r
+  | .ord _ => none
+
+/-- invariant: every slot ok, keys unique, two mapped slots never share a variable -/
+structure AObj.WF {V} (a : AObj V) : Prop where
+  ok : ∀ ks ∈ a.slots, ks.2.ok = true
+  nodup : (keysOf a.slots).Nodup
+  refs : ∀ k1 s1 k2 s2 r, (k1, s1) ∈ a.slots → (k2, s2) ∈ a.slots → s1.refOf = some r → s2.refOf = some r → k1 = k2
+
+theorem spec_env_irrelevant {V} (undef : V) (env env' : Nat → V) (s : ASlot V)
+    (h : ∀ r, s.refOf = some r → env' r = env r) : s.spec undef env' = s.spec undef env := by
+  cases s with
+  | ord x => rfl
+  | mapped w e c r => rw [spec_mapped, spec_mapped, h r rfl]
+
+theorem lookup_map_spec {V} (undef : V) (env : Nat → V) (l : List (Key × ASlot V)) (k : Key) :
+    lookup (l.map (fun ks => (ks.1, ks.2.spec undef env))) k = (lookup l k).map (fun s => s.spec undef env) := by
+  induction l with
+  | nil => rfl
+  | cons x xs ih =>
+    obtain ⟨k0, s0⟩ := x
+    by_cases h : k0 = k <;> simp [lookup, h, ih]
+
+theorem map_put_spec {V} (undef : V) (env env' : Nat → V) (l : List (Key × ASlot V)) (k : Key) (s' : ASlot V)
+    (hn : (keysOf l).Nodup)
+    (hother : ∀ ks ∈ l, ks.1 ≠ k → ks.2.spec undef env' = ks.2.spec undef env) :
+    (put l k s').map (fun ks => (ks.1, ks.2.spec undef env')) =
+      put (l.map (fun ks => (ks.1, ks.2.spec undef env))) k (s'.spec undef env') := by
+  induction l with
+  | nil => simp [put]
+  | cons x xs ih =>
+    obtain ⟨k0, s0⟩ := x
+    have hn' := List.nodup_cons.mp hn
+    by_cases h : k0 = k
+    · subst h
+      simp only [put, if_true, List.map_cons]
+      congr 1
+      apply List.map_congr_left
+      intro ks hks
+      have hne : ks.1 ≠ k0 := by
+        intro e
+        exact hn'.1 (e ▸ List.mem_map.mpr ⟨ks, hks, rfl⟩)
+      rw [hother ks (List.mem_cons_of_mem _ hks) hne]
+    · simp only [put, h, if_false, List.map_cons]
+      rw [hother (k0, s0) (List.mem_cons_self) h]
+      congr 1
+      exact ih hn'.2 (fun ks hks hne => hother ks (List.mem_cons_of_mem _ hks) hne)
+
+theorem map_erase_spec {V} (undef : V) (env : Nat → V) (l : List (Key × ASlot V)) (k : Key) :
+    (eraseKey l k).map (fun ks => (ks.1, ks.2.spec undef env)) =
+      eraseKey (l.map (fun ks => (ks.1, ks.2.spec undef env))) k := by
+  induction l with
+  | nil => rfl
+  | cons x xs ih =>
+    obtain ⟨k0, s0⟩ := x
+    by_cases h : k0 = k <;> simp [eraseKey, h, ih]
+
+theorem mem_of_lookup {α} (l : List (Key × α)) (k : Key) (a : α) (h : lookup l k = some a) : (k, a) ∈ l := by
+  induction l with
+  | nil => simp [lookup] at h
+  | cons x xs ih =>
+    obtain ⟨k0, a0⟩ := x
+    by_cases hk : k0 = k
+    · subst hk; simp [lookup] at h; subst h; exact List.mem_cons_self
+    · simp only [lookup, hk, if_false] at h
+      exact List.mem_cons_of_mem _ (ih h)
+
+/-- changing the variable of the slot at `k` does not change what the other slots stand for (distinct variables) -/
+theorem others_unchanged {V} (undef : V) (a : AObj V) (h : a.WF) (k : Key) (slot : ASlot V) (hl : lookup a.slots k = some slot)
+    (env' : Nat → V) (henv : ∀ r, slot.refOf ≠ some r → env' r = a.env r) :
+    ∀ ks ∈ a.slots, ks.1 ≠ k → ks.2.spec undef env' = ks.2.spec undef a.env := by
+  intro ks hks hne
+  apply spec_env_irrelevant
+  intro r hr
+  apply henv
+  intro hs
+  exact hne (h.refs ks.1 ks.2 k slot r hks (mem_of_lookup _ _ _ hl) hr hs)
+
+theorem argsDefine_frame {V} [DecidableEq V] (undef : V) (slot : ASlot V) (env : Nat → V) (d : Desc V) (ext : Bool)
+    (r : ASlot V × (Nat → V)) (h : argsDefine undef slot env d ext = some r) :
+    (∀ q, slot.refOf ≠ some q → r.2 q = env q) ∧ (∀ q, r.1.refOf = some q → slot.refOf = some q) := by
+  cases slot with
+  | ord s0 =>
+    simp only [argsDefine] at h
+    cases hd : defineOwn undef (some s0) d ext with
+    | none => rw [hd] at h; cases h
+    | some s1 => rw [hd] at h; cases h; exact ⟨fun _ _ => rfl, fun q hq => by simp [ASlot.refOf] at hq⟩
+  | mapped w e c ref =>
+    have hset : ∀ (x : V) q, (ASlot.mapped w e c ref : ASlot V).refOf ≠ some q → envSet env ref x q = env q := by
+      intro x q hq
+      have : q ≠ ref := fun e' => hq (by simp [ASlot.refOf, e'])
+      simp [envSet, this]
+    simp only [argsDefine] at h
+    split at h
+    · cases h
+    · split at h
+      · cases h
+        refine ⟨?_, fun q hq => by simp [ASlot.refOf] at hq⟩
+        intro q hq; split
+        · exact hset _ q hq
+        · rfl
+      · cases h
+        refine ⟨?_, fun q hq => by simpa [ASlot.refOf] using hq⟩
+        intro q hq; split
+        · exact hset _ q hq
+        · rfl
+    · cases h
+      exact ⟨fun q hq => hset _ q hq, fun q hq => by simpa [ASlot.refOf] using hq⟩
+
+theorem put_same {α} (l : List (Key × α)) (k : Key) (a : α) (h : lookup l k = some a) : put l k a = l := by
+  induction l with
+  | nil => simp [lookup] at h
+  | cons x xs ih =>
+    obtain ⟨k0, a0⟩ := x
+    by_cases hk : k0 = k
+    · subst hk; simp [lookup] at h; subst h; simp [put]
+    · simp only [lookup, hk, if_false] at h
+      simp [put, hk, ih h]
+
+theorem mem_put {α} (l : List (Key × α)) (k : Key) (a : α) (x : Key × α) (hn : (keysOf l).Nodup) (h : x ∈ put l k a) :
+    x = (k, a) ∨ (x ∈ l ∧ x.1 ≠ k) := by
+  induction l with
+  | nil => simp [put] at h; exact Or.inl h
+  | cons y ys ih =>
+    obtain ⟨k0, a0⟩ := y
+    have hn' := List.nodup_cons.mp hn
+    by_cases hk : k0 = k
+    · subst hk
+      simp only [put, if_true, List.mem_cons] at h
+      rcases h with h | h
+      · exact Or.inl h
+      · refine Or.inr ⟨List.mem_cons_of_mem _ h, ?_⟩
+        intro e
+        exact hn'.1 (e ▸ List.mem_map.mpr ⟨x, h, rfl⟩)
+    · simp only [put, hk, if_false, List.mem_cons] at h
+      rcases h with h | h
+      · exact Or.inr ⟨by rw [h]; exact List.mem_cons_self, by rw [h]; exact hk⟩
+      · rcases ih hn'.2 h with e | ⟨e1, e2⟩
+        · exact Or.inl e
+        · exact Or.inr ⟨List.mem_cons_of_mem _ e1, e2⟩
+
+def AOp.wf {V} : AOp V → Bool
+  | .define _ d => d.wellFormed
+  | _ => true
+
+theorem wf_put {V} (a : AObj V) (h : a.WF) (k : Key) (slot : ASlot V) (hl : lookup a.slots k = some slot) (s' : ASlot V)
+    (env' : Nat → V) (hok : s'.ok = true) (hrefs : ∀ q, s'.refOf = some q → slot.refOf = some q) :
+    AObj.WF { a with slots := put a.slots k s', env := env' } := by
+  refine ⟨?_, nodup_put _ _ _ h.nodup, ?_⟩
+  · intro ks hks
+    rcases mem_put _ _ _ _ h.nodup hks with e | ⟨e1, _⟩
+    · rw [e]; exact hok
+    · exact h.ok ks e1
+  · intro k1 s1 k2 s2 r h1 h2 r1 r2
+    have hm := mem_of_lookup _ _ _ hl
+    rcases mem_put _ _ _ _ h.nodup h1 with e1 | ⟨m1, n1⟩ <;> rcases mem_put _ _ _ _ h.nodup h2 with e2 | ⟨m2, n2⟩
+    · cases e1; cases e2; rfl
+    · cases e1
+      exact (h.refs k slot k2 s2 r hm m2 (hrefs r r1) r2)
+    · cases e2
+      exact (h.refs k1 s1 k slot r m1 hm r1 (hrefs r r2))
+    · exact h.refs k1 s1 k2 s2 r m1 m2 r1 r2
+
+/-- one own-property operation on the arguments object = the ordinary operation on the property list it stands for -/
+theorem args_step_refines {V} [DecidableEq V] (undef : V) (a : AObj V) (h : a.WF) (op : AOp V) (hw : op.wf = true) :
+    (a.step undef op).spec undef = specStep undef a.ext (a.spec undef) op ∧ (a.step undef op).WF ∧ (a.step undef op).ext = a.ext := by
+  have hlk : ∀ k, lookup (a.spec undef) k = (lookup a.slots k).map (fun s => s.spec undef a.env) :=
+    fun k => lookup_map_spec undef a.env a.slots k
+  cases op with
+  | define k d =>
+    have hd : d.wellFormed = true := by simpa [AOp.wf] using hw
+    simp only [AObj.step, specStep, hlk]
+    cases hl : lookup a.slots k with
+    | some slot =>
+      have hok := h.ok (k, slot) (mem_of_lookup _ _ _ hl)
+      obtain ⟨href, hkeep⟩ := argsDefine_refines undef slot a.env d a.ext hd hok
+      simp only [Option.map_some]
+      cases hr : argsDefine undef slot a.env d a.ext with
+      | none => rw [hr] at href; simp only [Option.map_none] at href; rw [← href]; exact ⟨(by first | rfl | trivial), h, (by first | rfl | trivial)⟩
+      | some r =>
+        rw [hr] at href
+        simp only [Option.map_some] at href
+        rw [← href]
+        obtain ⟨hfr1, hfr2⟩ := argsDefine_frame undef slot a.env d a.ext r hr
+        refine ⟨?_, wf_put a h k slot hl r.1 r.2 (hkeep r hr) hfr2, (by first | rfl | trivial)⟩
+        simp only [AObj.spec]
+        exact map_put_spec undef a.env r.2 a.slots k r.1 h.nodup (others_unchanged undef a h k slot hl r.2 hfr1)
+    | none =>
+      simp only [Option.map_none]
+      have hc := cell_new undef d a.ext hd
+      cases hdo : defineOwn undef none d a.ext with
+      | none => have := hc.1; rw [hdo] at this; simp only [Option.map_none] at this; rw [← this]; exact ⟨(by first | rfl | trivial), h, (by first | rfl | trivial)⟩
+      | some s0 =>
+        have h1 := hc.1; rw [hdo] at h1; simp only [Option.map_some, Option.map_none] at h1
+        rw [← h1]
+        refine ⟨?_, ?_, (by first | rfl | trivial)⟩
+        · simp only [AObj.spec]
+          have := map_put_spec undef a.env a.env a.slots k (.ord s0) h.nodup (fun _ _ _ => rfl)
+          simpa [ASlot.spec, ASlot.view] using this
+        · refine ⟨?_, nodup_put _ _ _ h.nodup, ?_⟩
+          · intro ks hks
+            rcases mem_put _ _ _ _ h.nodup hks with e | ⟨e1, _⟩
+            · rw [e]; exact hc.2 s0 hdo
+            · exact h.ok ks e1
+          · intro k1 s1 k2 s2 r h1' h2' r1 r2
+            rcases mem_put _ _ _ _ h.nodup h1' with e1 | ⟨m1, n1⟩ <;> rcases mem_put _ _ _ _ h.nodup h2' with e2 | ⟨m2, n2⟩
+            · cases e1; cases e2; rfl
+            · cases e1; simp [ASlot.refOf] at r1
+            · cases e2; simp [ASlot.refOf] at r2
+            · exact h.refs k1 s1 k2 s2 r m1 m2 r1 r2
+  | delete k =>
+    simp only [AObj.step, specStep, hlk]
+    cases hl : lookup a.slots k with
+    | none => exact ⟨(by first | rfl | trivial), h, (by first | rfl | trivial)⟩
+    | some slot =>
+      simp only [Option.map_some, argsDelete_spec undef a.env slot]
+      cases hc : (slot.spec undef a.env).configurable with
+      | false => simp only [Bool.false_eq_true, if_false]; exact ⟨(by first | rfl | trivial), h, (by first | rfl | trivial)⟩
+      | true =>
+        simp only [if_true]
+        refine ⟨by simp only [AObj.spec]; exact map_erase_spec undef a.env a.slots k, ?_, (by first | rfl | trivial)⟩
+        have hsub : ∀ x, x ∈ eraseKey a.slots k → x ∈ a.slots := by
+          intro x hx
+          have : (eraseKey a.slots k).Sublist a.slots := by
+            clear hl hc h hlk
+            induction a.slots with
+            | nil => exact List.Sublist.refl _
+            | cons y ys ih =>
+              obtain ⟨k0, a0⟩ := y
+              by_cases hk : k0 = k
+              · simp [eraseKey, hk]
+              · simp only [eraseKey, hk, if_false]; exact List.Sublist.cons₂ _ ih
+          exact this.subset hx
+        refine ⟨fun ks hks => h.ok ks (hsub ks hks), by rw [keys_erase]; exact List.Nodup.erase _ h.nodup, ?_⟩
+        intro k1 s1 k2 s2 r h1 h2 r1 r2
+        exact h.refs k1 s1 k2 s2 r (hsub _ h1) (hsub _ h2) r1 r2
+  | setOwn k v =>
+    simp only [AObj.step, specStep, hlk]
+    cases hl : lookup a.slots k with
+    | none => exact ⟨(by first | rfl | trivial), h, (by first | rfl | trivial)⟩
+    | some slot =>
+      have hok := h.ok (k, slot) (mem_of_lookup _ _ _ hl)
+      simp only [Option.map_some]
+      cases slot with
+      | mapped w e c ref =>
+        simp only [ASlot.ok] at hok; subst hok
+        rw [spec_mapped]
+        simp only [argsSetOwn, Bool.not_true, Bool.false_eq_true, if_false]
+        refine ⟨?_, ?_, (by first | rfl | trivial)⟩
+        · simp only [AObj.spec]
+          have hoth := others_unchanged undef a h k _ hl (envSet a.env ref v) (by
+            intro r hr
+            have : r ≠ ref := fun e' => hr (by simp [ASlot.refOf, e'])
+            simp [envSet, this])
+          have := map_put_spec undef a.env (envSet a.env ref v) a.slots k (.mapped true e c ref) h.nodup hoth
+          rw [this, spec_mapped]; simp [envSet]
+        · exact wf_put a h k _ hl _ _ rfl (fun q hq => hq)
+      | ord s0 =>
+        simp only [ASlot.ok] at hok
+        cases s0 with
+        | plain x =>
+          simp only [argsSetOwn, ASlot.spec, ASlot.view, absProp]
+          refine ⟨?_, ?_, (by first | rfl | trivial)⟩
+          · simp only [AObj.spec]
+            have := map_put_spec undef a.env a.env a.slots k (.ord (.plain v)) h.nodup (fun _ _ _ => rfl)
+            simpa [ASlot.spec, ASlot.view, absProp] using this
+          · exact wf_put a h k _ hl _ _ rfl (fun q hq => by simp [ASlot.refOf] at hq)
+        | prop p =>
+          simp only [Stored.repInv, VProp.repInv] at hok
+          have hsame : lookup (a.spec undef) k = some ((ASlot.ord (.prop p) : ASlot V).spec undef a.env) := by
+            rw [hlk, hl]; rfl
+          cases hacc : p.accessor with
+          | true =>
+            rw [hacc] at hok
+            simp only [if_true, Bool.and_eq_true, Bool.not_eq_true', Option.isNone_iff_eq_none] at hok
+            obtain ⟨hwr, hval⟩ := hok
+            have hspec : (ASlot.ord (.prop p) : ASlot V).spec undef a.env = .acc p.getterFunc p.setterFunc p.enumerable p.configurable := by
+              simp [ASlot.spec, ASlot.view, absProp, hacc]
+            rw [hspec]
+            cases hs : p.setterFunc with
+            | none =>
+              simp only [argsSetOwn, VProp.isWritable, hwr, hs, Option.isSome_none, Bool.or_self, Bool.not_false, if_true]
+              exact ⟨(by first | rfl | trivial), h, (by first | rfl | trivial)⟩
+            | some f =>
+              simp only [argsSetOwn, VProp.isWritable, hwr, hs, Option.isSome_some, Bool.or_true, Bool.not_true, Bool.false_eq_true, if_false]
+              refine ⟨?_, ?_, (by first | rfl | trivial)⟩
+              · simp only [AObj.spec]
+                have := map_put_spec undef a.env a.env a.slots k (.ord (.prop p)) h.nodup (fun _ _ _ => rfl)
+                rw [this]
+                exact put_same _ _ _ hsame
+              · exact wf_put a h k _ hl _ _ (by simpa [ASlot.ok, Stored.repInv] using h.ok _ (mem_of_lookup _ _ _ hl)) (fun q hq => by simp [ASlot.refOf] at hq)
+          | false =>
+            rw [hacc] at hok
+            simp only [Bool.false_eq_true, if_false, Bool.and_eq_true, Option.isNone_iff_eq_none] at hok
+            obtain ⟨⟨hg, hs⟩, hv⟩ := hok
+            have hspec : (ASlot.ord (.prop p) : ASlot V).spec undef a.env = .data (p.value.getD undef) p.writable p.enumerable p.configurable := by
+              simp [ASlot.spec, ASlot.view, absProp, hacc]
+            rw [hspec]
+            cases hwr : p.writable with
+            | false =>
+              simp only [argsSetOwn, VProp.isWritable, hwr, hs, Option.isSome_none, Bool.or_self, Bool.not_false, if_true]
+              exact ⟨(by first | rfl | trivial), h, (by first | rfl | trivial)⟩
+            | true =>
+              simp only [argsSetOwn, VProp.isWritable, hwr, hs, Bool.true_or, Bool.not_true, Bool.false_eq_true, if_false]
+              refine ⟨?_, ?_, (by first | rfl | trivial)⟩
+              · simp only [AObj.spec]
+                have := map_put_spec undef a.env a.env a.slots k (.ord (.prop { p with value := some v })) h.nodup (fun _ _ _ => rfl)
+                simp only [hwr, hs] at this
+                rw [this]
+                simp [ASlot.spec, ASlot.view, absProp, hacc, hwr]
+              · exact wf_put a h k _ hl _ _ (by simp [ASlot.ok, Stored.repInv, VProp.repInv, hacc, hg, hs]) (fun q hq => by simp [ASlot.refOf] at hq)
+
+/-- histories: after ANY sequence of well-formed own-property operations the arguments object stands for exactly the
+property list an ordinary object reaches by the same operations (and the invariant holds again) -/
+theorem args_run_refines {V} [DecidableEq V] (undef : V) (ops : List (AOp V)) (hw : ∀ op ∈ ops, op.wf = true) :
+    ∀ (a : AObj V), a.WF →
+      (ops.foldl (AObj.step undef) a).spec undef = ops.foldl (specStep undef a.ext) (a.spec undef) ∧
+      (ops.foldl (AObj.step undef) a).WF := by
+  induction ops with
+  | nil => intro a h; exact ⟨rfl, h⟩
+  | cons op rest ih =>
+    intro a h
+    obtain ⟨h1, h2, h3⟩ := args_step_refines undef a h op (hw op List.mem_cons_self)
+    have := ih (fun o ho => hw o (List.mem_cons_of_mem _ ho)) (a.step undef op) h2
+    simp only [List.foldl_cons]
+    rw [h3, h1] at this
+    exact this
 
 end GojaModel.C04
